@@ -79,7 +79,7 @@ def rand_coeff(rng):
     return rng.choice([0.0, 1.0, -1.0, 0.5, 2.0, -3.25, 1e-3, 1e6, rng.uniform(-10, 10), rng.uniform(-1e-2, 1e-2)])
 
 
-def gen_graph(rng, depth=None, kinds=STRUCTURAL):
+def gen_graph(rng, depth=None, kinds=STRUCTURAL, permute=True):
     """Random scale list; scale i may read the raw data or any earlier scale. The last one is the output."""
     n = depth or rng.randint(1, 5)
     scales = []
@@ -120,6 +120,21 @@ def gen_graph(rng, depth=None, kinds=STRUCTURAL):
         else:
             sc = dict(kind=k, left=pick(), right=pick())
         scales.append(sc)
+    if permute and n >= 3 and rng.random() < 0.25:
+        # the statement does not require topological order: renumber all scales but the output, so that some scale
+        # reads a higher-numbered one (the graph stays acyclic)
+        order = list(range(n - 1))
+        rng.shuffle(order)
+        newpos = {old: new for new, old in enumerate(order)}
+        newpos[n - 1] = n - 1
+        out = [None] * n
+        for old, sc in enumerate(scales):
+            sc = dict(sc)
+            for key in ('src', 'left', 'right'):
+                if key in sc and sc[key] is not None and sc[key] != RAW:
+                    sc[key] = newpos[sc[key]]
+            out[newpos[old]] = sc
+        scales = out
     return scales
 
 
